@@ -157,6 +157,8 @@ class FitsTiler(object):
 
                 if os.path.exists(os.path.join(self.out_dir, "properties")):
                     self._copy_hips_properties_to_builder()
+                elif os.path.exists(os.path.join(self.out_dir, "index_rel.wtml")):
+                    self._copy_wtml_to_builder()
 
                 return
 
@@ -396,6 +398,25 @@ class FitsTiler(object):
             os.symlink(src=absolute_path, dst=link_path)
 
         return dir
+
+    def _copy_wtml_to_builder(self):
+        """
+        Restore the builder's description of the dataset from the
+        ``index_rel.wtml`` file that was written when the reused output
+        directory was created.
+        """
+        from wwt_data_formats.folder import Folder
+        from wwt_data_formats.place import Place
+
+        folder = Folder.from_file(os.path.join(self.out_dir, "index_rel.wtml"))
+        item = folder.children[0]
+
+        if isinstance(item, Place):
+            self.builder.place = item
+            self.builder.imgset = item.as_imageset()
+        else:
+            self.builder.imgset = item
+            self.builder.place.foreground_image_set = item
 
     def _copy_hips_properties_to_builder(self):
         hips_properties = dict()
